@@ -702,8 +702,6 @@ where
                     break Ok(());
                 }
                 Notification::Event(bytes) => {
-                    sync_event = true;
-
                     trace!("Updating the current value.");
                     current.clear();
 
@@ -711,7 +709,12 @@ where
                         if let BadFrameResponse::Abort(report) = failure_handler.failed_with(e) {
                             break Err(report);
                         }
+                        // The frame is ignored so nothing is passed on to the consumers.
+                        trace!("Ignoring a bad event frame.");
+                        current.clear();
+                        continue;
                     }
+                    sync_event = true;
                     if is_active {
                         send_current(&mut registered, &current).await;
                         if !I::SINGLE_FRAME_STATE {
